@@ -168,6 +168,17 @@ def handle (op : String) (args : List String) : Option String :=
           if dir = "enc" then showExcept hexTok (f.encrypt (prims []) k iv d)
           else if dir = "dec" then showExcept hexTok (f.decrypt (prims []) k d) else "bad-op"
       | [] => "bad-op"
+  -- `c5_sanitize <utf-16 code units, 4 hex digits each>`
+  | "c5_sanitize" => some <| run pBytes args fun bs =>
+      let rec units : Bytes → Option (List Nat)
+        | [] => some []
+        | hi :: lo :: rest => (units rest).map (fun t => (hi.toNat * 256 + lo.toNat) :: t)
+        | _ => none
+      match units bs with
+      | none => "bad-op"
+      | some us => match sanitizeR4 us with
+        | some b => "ok " ++ hexTok b
+        | none => "err UnrepresentablePassword"
   | "c5_pkcs5" => some <| run pBytes args fun d =>
       match pkcs5Unpad d with | some p => "ok " ++ hexTok p | none => "err Padding"
   | "c5_mkstate" => some <| run (fun ts => do
